@@ -217,7 +217,7 @@ type verifPointShape struct {
 
 func verifDrawPoint() (models.PointAsMap, verifPointShape) {
 	m := models.PointAsMap{}
-	sh := verifPointShape{idKind: nondetIntRange(0, 2), vecKind: nondetIntRange(0, 3), priceKind: nondetIntRange(0, 2)}
+	sh := verifPointShape{idKind: nondetIntRange(0, 3), vecKind: nondetIntRange(0, 3), priceKind: nondetIntRange(0, 2)}
 	switch sh.idKind {
 	case 0:
 		sh.id = nondetUUID()
@@ -225,6 +225,8 @@ func verifDrawPoint() (models.PointAsMap, verifPointShape) {
 	case 1: // no id
 	case 2:
 		m["_id"] = "not-a-uuid"
+	case 3: // present but not a string
+		m["_id"] = 7.0
 	}
 	switch sh.vecKind {
 	case 0: // array of numbers, any length
